@@ -26,6 +26,8 @@ type c01Run struct {
 	Command      []string `json:"command"`
 	KnownFailing []string `json:"knownFailing"`
 	Skip         []string `json:"skip"`
+	Run          []string `json:"run"`
+	Lane         int      `json:"lane"`
 	MaxServers   int      `json:"maxServers"`
 }
 
@@ -77,9 +79,9 @@ func TestVerifC01Matrix(t *testing.T) {
 		if err := json.Unmarshal(l, &r); err != nil {
 			t.Fatal(err)
 		}
-		lane := 1
-		if strings.HasPrefix(r.ID, "ref-") {
-			lane = 0
+		lane := r.Lane
+		if lane < 0 || lane > 1 {
+			lane = 1
 		}
 		lanes[lane] = append(lanes[lane], i)
 	}
@@ -135,7 +137,8 @@ func c01One(l json.RawMessage, data map[string][]byte) map[string]any {
 			return rec
 		}
 		skip := parsePatterns(r.Skip)
-		filter := newFilter(nil, skip)
+		runPat := parsePatterns(r.Run)
+		filter := newFilter(runPat, skip)
 		expected := map[string]bool{}
 		for _, tc := range lib.allPermutations(r.Mode == "server", r.Mode == "client") {
 			if filter.accept(tc) {
@@ -144,7 +147,7 @@ func c01One(l json.RawMessage, data map[string][]byte) map[string]any {
 		}
 		pr := &c01Printer{}
 		t0 := time.Now()
-		results, runErr := run(configCases, knownFailing, &testTrie{}, nil, skip, allSuites, pr, pr, flags)
+		results, runErr := run(configCases, knownFailing, &testTrie{}, parsePatterns(r.Run), skip, allSuites, pr, pr, flags)
 		rec["elapsed_s"] = time.Since(t0).Seconds()
 		if runErr != nil {
 			rec["err"] = runErr.Error()
